@@ -613,3 +613,192 @@ def rule_computed_flag_consulted(ctx, rep, rid: str) -> None:
                 rep.bad(rid, key, f"{m.qual} takes `{norm(t.args[0])}.name` as the property name whenever the key is an Identifier, without looking at `{want}`: the computed form (`{{[k]: v}}`, `o[k]`) then names the property 'k' instead of the value of k", f"{m.module.rel}:{t.lineno}")
     if n < 1:
         raise AnalysisError(f"{rid}: no identifier-key decision found in the compiler")
+
+
+# ---- function declarations take effect on entry to their scope -------------------------------------------
+
+
+def _is_decl_test(e: ast.AST, var: Optional[str] = None) -> Optional[bool]:
+    """True for `isinstance(v, FunctionDeclaration)`, False for its negation, None otherwise."""
+    if isinstance(e, ast.UnaryOp) and isinstance(e.op, ast.Not):
+        r = _is_decl_test(e.operand, var)
+        return None if r is None else not r
+    if isinstance(e, ast.Call) and norm(e.func) == "isinstance" and len(e.args) == 2 and norm(e.args[1]) == "FunctionDeclaration" and isinstance(e.args[0], ast.Name) and (var is None or e.args[0].id == var):
+        return True
+    return None
+
+
+def _filtered_part(e: ast.AST, assigns: Dict[str, ast.AST]) -> Optional[Tuple[bool, str]]:
+    """(keeps declarations?, source list) for `[s for s in L if <decl test>]` (directly or through one local)."""
+    if isinstance(e, ast.Name) and e.id in assigns:
+        e = assigns[e.id]
+    if isinstance(e, ast.ListComp) and len(e.generators) == 1 and isinstance(e.elt, ast.Name) and isinstance(e.generators[0].target, ast.Name) and e.elt.id == e.generators[0].target.id and len(e.generators[0].ifs) == 1:
+        r = _is_decl_test(e.generators[0].ifs[0], e.elt.id)
+        if r is not None:
+            return r, norm(e.generators[0].iter)
+    return None
+
+
+def _declarations_first(h: Func) -> Optional[str]:
+    """None when every list the helper returns is its parameter with the function declarations moved to the front
+    (stable otherwise); else the reason."""
+    params = [p for p in h.params() if p != "self"]
+    if len(params) != 1:
+        return f"{h.name} takes {len(params)} parameters"
+    p = params[0]
+    assigns = {t.id: n.value for n in h.own_nodes() if isinstance(n, ast.Assign) and len(n.targets) == 1 for t in n.targets if isinstance(t, ast.Name)}
+    rets = [n for n in h.own_nodes() if isinstance(n, ast.Return)]
+    if not rets:
+        return f"{h.name} returns nothing"
+    ordered = False
+    for r in rets:
+        v = r.value
+        if isinstance(v, ast.Name) and v.id == p:
+            # the list as it is: only where there is nothing to move
+            par = getattr(r, "_parent", None)
+            ok = False
+            if isinstance(par, ast.If) and isinstance(par.test, ast.UnaryOp) and isinstance(par.test.op, ast.Not):
+                part = _filtered_part(par.test.operand, assigns)
+                ok = part is not None and part[0] and part[1] == p
+            if not ok:
+                return f"line {r.lineno} returns `{p}` in source order although it may hold declarations"
+            continue
+        if isinstance(v, ast.BinOp) and isinstance(v.op, ast.Add):
+            a, b = _filtered_part(v.left, assigns), _filtered_part(v.right, assigns)
+            if a and b and a[1] == p and b[1] == p and a[0] and not b[0]:
+                ordered = True
+                continue
+            return f"line {r.lineno} returns `{short(v, 50)}`, which is not `declarations + the other statements` of `{p}`"
+        if isinstance(v, ast.Call) and norm(v.func) == "sorted" and v.args and norm(v.args[0]) == p:
+            k = [kw.value for kw in v.keywords if kw.arg == "key"]
+            if k and isinstance(k[0], ast.Lambda) and _is_decl_test(k[0].body) is False and not any(kw.arg == "reverse" for kw in v.keywords):
+                ordered = True
+                continue
+        return f"line {r.lineno} returns `{short(v, 50)}`"
+    return None if ordered else f"{h.name} never returns a reordered list"
+
+
+def rule_function_declarations_first(ctx, rep, rid: str) -> None:
+    """A function declaration is initialised when its scope is entered, so code above it can call it (helpers declared
+    at the bottom, mutual recursion).  This compiler creates the closure where the declaration stands; every
+    place that compiles the statement list of a scope (program, function body, arrow block body) therefore has to
+    take the declarations first."""
+    rep.rule(rid, "every compiler entry point that builds a code object compiles the statement list of that scope with its function declarations first (through a helper that returns `declarations + the other statements`, or a stable sort on `not isinstance(s, FunctionDeclaration)`), never in plain source order", floor=3)
+    comp = ctx.tree.class_named("Compiler")
+    n = 0
+    seen: Set[str] = set()
+    for m in comp.methods.values():
+        if isinstance(m.node, ast.Lambda):
+            continue
+        if not any(isinstance(c, ast.Call) and norm(c.func) == "CompiledFunction" for c in m.own_nodes()):
+            continue
+        assigns: Dict[str, List[ast.AST]] = {}
+        for a in m.own_nodes():
+            if isinstance(a, ast.Assign) and len(a.targets) == 1 and isinstance(a.targets[0], ast.Name):
+                assigns.setdefault(a.targets[0].id, []).append(a.value)
+        # statement lists: what a loop that compiles statements iterates over, and what `x[-1]` of a compiled last statement indexes
+        lists: List[Tuple[ast.AST, int]] = []
+        for st in m.own_nodes():
+            if isinstance(st, ast.For) and isinstance(st.target, ast.Name) and any(isinstance(c, ast.Call) and isinstance(c.func, ast.Attribute) and c.func.attr.startswith("_compile_statement") and c.args and norm(c.args[0]) == st.target.id for b in st.body for c in ast.walk(b)):
+                lists.append((st.iter, st.lineno))
+            if isinstance(st, ast.Call) and isinstance(st.func, ast.Attribute) and st.func.attr.startswith("_compile_statement") and st.args and isinstance(st.args[0], ast.Subscript):
+                lists.append((st.args[0].value, st.lineno))
+        for e, line in lists:
+            # strip slices and `X if cond else []`
+            roots: List[ast.AST] = []
+
+            def strip(x):
+                if isinstance(x, ast.Subscript):
+                    strip(x.value)
+                elif isinstance(x, ast.IfExp):
+                    strip(x.body)
+                    strip(x.orelse)
+                elif isinstance(x, ast.List) and not x.elts:
+                    pass
+                elif isinstance(x, ast.Name) and x.id in assigns:
+                    for v in assigns[x.id]:
+                        strip(v)
+                else:
+                    roots.append(x)
+
+            strip(e)
+            for r in roots:
+                key = f"{m.qual}:{norm(r)}:declarations-first"
+                if key in seen:
+                    continue
+                seen.add(key)
+                n += 1
+                loc = f"{m.module.rel}:{line}"
+                why = None
+                if isinstance(r, ast.Call) and isinstance(r.func, ast.Attribute) and norm(r.func.value) == "self":
+                    h = ctx.tree.find_method(comp, r.func.attr)
+                    why = f"`{norm(r.func)}` is not a method of the compiler" if h is None else _declarations_first(h)
+                    if why is not None and h is not None:
+                        why = f"{h.qual}: {why}"
+                elif isinstance(r, ast.Call) and norm(r.func) == "sorted":
+                    k = [kw.value for kw in r.keywords if kw.arg == "key"]
+                    if not (k and isinstance(k[0], ast.Lambda) and _is_decl_test(k[0].body) is False):
+                        why = "sorted on another key"
+                else:
+                    why = f"`{norm(r)}` is the statement list as the parser delivered it"
+                if why is None:
+                    rep.ok(rid, key, {"at": loc})
+                else:
+                    rep.bad(rid, key, f"{m.qual} builds a code object and compiles its statements from `{short(e, 50)}` in source order ({why}): a function declared below its first use (`h(); function h(){{}}`, helpers at the bottom of a function, mutual recursion) is still undefined when it is called", loc)
+    if n < 3:
+        raise AnalysisError(f"{rid}: fewer than three scope bodies found in the compiler (program, function, arrow)")
+
+
+# ---- an optional child of a syntax node is tested before it is looked into -----------------------------
+
+
+def rule_optional_children_tested(ctx, rep, rid: str, modules=("compiler", "parser")) -> None:
+    """The node classes declare which children may be absent (`param: Optional[Identifier]`).  A reader that knows the
+    class of the node it holds (an `isinstance(node, C)` branch) and reaches INTO such a child - `node.param.name`,
+    `for x in node.finalizer.body` - without a test of the child raises AttributeError on a well-formed program the
+    moment the parser leaves the child out; the host exception passes through eval."""
+    rep.rule(rid, "wherever the compiler or parser holds a node whose class is known from an enclosing isinstance test and reads an attribute of a child that the class declares Optional[..], a test of that child (truthiness, `is not None`, or an earlier exit on `is None`) dominates the read", floor=3)
+    from ..util import atoms, known_conditions
+
+    schema = node_schema(ctx)
+    optional = {(c, f) for c, fields in schema.items() for f, ann in fields.items() if ann.startswith("Optional[")}
+    if len(optional) < 5:
+        raise AnalysisError(f"{rid}: fewer than five Optional[..] fields declared in ast_nodes ({len(optional)})")
+    n = 0
+    for f in ctx.tree.funcs:
+        if isinstance(f.node, ast.Lambda) or f.module.name not in modules:
+            continue
+        for x in f.own_nodes():
+            # X.child.<attr>  (read into the child)
+            if not (isinstance(x, ast.Attribute) and isinstance(x.value, ast.Attribute)):
+                continue
+            child = x.value
+            base = norm(child.value)
+            conds = [(norm(a), p, a) for t, pol in known_conditions(x, f.node) for a, p in atoms(t, pol)]
+            classes: Set[str] = set()
+            for text, pol, a in conds:
+                if pol and isinstance(a, ast.Call) and norm(a.func) == "isinstance" and len(a.args) == 2 and norm(a.args[0]) == base:
+                    c = a.args[1]
+                    classes |= {norm(e) for e in (c.elts if isinstance(c, ast.Tuple) else [c])}
+            hit = sorted(c for c in classes if (c, child.attr) in optional)
+            if not hit:
+                continue
+            n += 1
+            want = norm(child)
+            tested = any((text == want and pol) or (text == f"{want} is not None" and pol) or (text == f"{want} is None" and not pol) or (text == f"not {want}" and not pol) for text, pol, a in conds)
+            # `X.child.attr if X.child else ..` and `X.child and X.child.attr`
+            p = getattr(x, "_parent", None)
+            q = x
+            while not tested and p is not None and not isinstance(p, ast.stmt):
+                if isinstance(p, ast.BoolOp) and isinstance(p.op, ast.And):
+                    i = [k for k, v in enumerate(p.values) if v is q or any(w is q for w in ast.walk(v))]
+                    if i and any(norm(v) in (want, f"{want} is not None") for v in p.values[: i[0]]):
+                        tested = True
+                q, p = p, getattr(p, "_parent", None)
+            key = f"{f.qual}:{want}.{x.attr}"
+            if tested:
+                rep.ok(rid, key)
+            else:
+                rep.bad(rid, key, f"{f.qual} reads `{norm(x)}` where `{base}` is a {'/'.join(hit)}, whose `{child.attr}` is declared {schema[hit[0]][child.attr]}: no test of `{want}` dominates the read, so a node without that child (which the parser may build) raises AttributeError - a host exception that passes through eval instead of a JSError", f"{f.module.rel}:{x.lineno}")
+    if n < 3:
+        raise AnalysisError(f"{rid}: fewer than three reads into optional children found ({n})")
